@@ -133,8 +133,13 @@ class OperatorTemplate(AbstractBaseTemplate):
         if values is None:
             values = {}
 
+        # (two templates may carry the same name: an entry only serves templates with the same equations and declarations)
+        signature = (tuple(self.equations), repr(sorted((str(k), repr(v)) for k, v in self.variables.items())))
+
         try:
-            instance, default_values = self.cache[key]
+            instance, default_values, cached_signature = self.cache[key]
+            if cached_signature != signature:
+                raise KeyError(key)
 
             for vname, value in default_values.items():
                 if vname not in values:
@@ -173,7 +178,7 @@ class OperatorTemplate(AbstractBaseTemplate):
             equations = self.equations
             instance = self.target_ir(equations=equations, variables=variables, inputs=inputs, output=output,
                                       template=self)
-            self.cache[key] = (instance, default_values)
+            self.cache[key] = (instance, default_values, signature)
 
         if return_key:
             return instance, values, key
